@@ -1091,6 +1091,119 @@ example : (crun true (cinit fun i => if i < 2 then [[i], [i, i]] else [])
       [(0, 0), (1, 0), (0, 2), (0, 9), (1, 1), (0, 0), (1, 0), (1, 3), (0, 0)]).wire =
     wire [[0]] ++ [0, 0, 0] := by decide
 
+
+/-! ### interface-typed fields -/
+
+/-- a tagged value is instantiated by the generator registered for its tag — whatever the suite of
+the connection, even none -/
+theorem iface_tagged (gs : Gens) (ctor : Option Grp) (id bytes : List Nat) (g' : Grp)
+    (hid : id.length = 8) (hb : bytes ≠ []) (hg : gs.get id = some g') :
+    decIface gs ctor (encIface gs (some id) bytes) = some (g', bytes) := by
+  have hpos : 0 < bytes.length := List.length_pos_iff.mpr hb
+  simp only [encIface, hg, Option.isSome_some, if_true]
+  unfold decIface
+  rw [if_pos (by simp; omega), List.take_append_of_le_length (by omega), List.take_of_length_le (by omega), hg]
+  simp [hid]
+
+/-- an untagged value (no `MarshalID`, or no generator for it) is instantiated by the constructor
+table of the connection's suite -/
+theorem iface_untagged (gs : Gens) (ctor : Option Grp) (mid : Option (List Nat)) (bytes : List Nat)
+    (hm : ∀ id, mid = some id → gs.get id = none)
+    (hp : 8 < bytes.length → gs.get (bytes.take 8) = none) :
+    decIface gs ctor (encIface gs mid bytes) = ctor.map (·, bytes) := by
+  have he : encIface gs mid bytes = bytes := by
+    cases mid with
+    | none => rfl
+    | some id => simp [encIface, hm id rfl]
+  rw [he]
+  unfold decIface
+  by_cases h8 : 8 < bytes.length
+  · rw [if_pos h8, hp h8]
+  · rw [if_neg h8]
+
+/-- the bytes of an untagged value are not mistaken for a tag (eight given bytes out of 2^64; the
+generator of the harness checks it for every value it builds) -/
+def NoTagPrefix (gs : Gens) (bytes : List Nat) : Prop := 8 < bytes.length → gs.get (bytes.take 8) = none
+
+theorem marshalID_length (g : Grp) (id : List Nat) (h : g.marshalID = some id) : id.length = 8 := by
+  cases g <;> simp [Grp.marshalID] at h <;> subst h <;> rfl
+
+/-- the types `init()` registers a generator for come back under their own tag -/
+def Grp.selfTagged (g : Grp) : Bool :=
+  match g.marshalID with
+  | some id => onetGens.get id == some g
+  | none => false
+
+/-- **tagged points and scalars round-trip on every connection**: a value of Ed25519 or of
+bn256 G1/G2/GT (points, and the bn256 scalars) is instantiated as its own dynamic type from its own
+bytes whatever suite the receiving connection has — even none. -/
+theorem c03_iface_tagged_any_suite (g : Grp) (hg : g.selfTagged = true) (suite : Option SuiteId)
+    (k : Kind) (bytes : List Nat) (hb : bytes ≠ []) :
+    ifaceSame onetGens suite k g bytes = true := by
+  unfold Grp.selfTagged at hg
+  cases hm : g.marshalID with
+  | none => rw [hm] at hg; cases hg
+  | some id =>
+    rw [hm] at hg
+    have hget : onetGens.get id = some g := by simpa using hg
+    unfold ifaceSame
+    rw [hm, iface_tagged onetGens _ id bytes g (marshalID_length g id hm) hb hget]
+    simp
+
+example : [Grp.edP, .edS, .g1P, .g2P, .gtP, .bnS].all Grp.selfTagged = true := by decide
+
+/-- **untagged points (the nist groups P256 and Residue512) round-trip exactly on a connection of
+their own suite**: `DefaultConstructors` is a function of the suite it is given — of the
+connection at hand, not of whatever suite the process used first. -/
+theorem c03_iface_untagged_own_suite (g : Grp) (hg : g.marshalID = none) (suite : Option SuiteId)
+    (k : Kind) (bytes : List Nat) (hp : NoTagPrefix onetGens bytes) :
+    ifaceSame onetGens suite k g bytes = true ↔ ∃ s, suite = some s ∧ s.make k = g := by
+  unfold ifaceSame
+  rw [hg, iface_untagged onetGens _ none bytes (by intro id h; cases h) hp]
+  cases suite with
+  | none => simp [defaultConstructors]
+  | some s => simp [defaultConstructors]
+
+/-- every registered suite decodes the points and scalars it makes itself — except the `mod.Int`
+scalars of the nist suites (next theorem) -/
+theorem c03_iface_own_suite (s : SuiteId) (k : Kind) (bytes : List Nat) (hb : bytes ≠ [])
+    (hp : NoTagPrefix onetGens bytes) (hn : s.make k ≠ .p256S ∧ s.make k ≠ .resS) :
+    ifaceSame onetGens (some s) k (s.make k) bytes = true := by
+  by_cases ht : (s.make k).selfTagged = true
+  · exact c03_iface_tagged_any_suite _ ht _ _ _ hb
+  · have hm : (s.make k).marshalID = none := by
+      cases s <;> cases k <;> simp_all [SuiteId.make, Grp.marshalID] <;> revert ht <;> decide
+    exact (c03_iface_untagged_own_suite _ hm _ _ _ hp).mpr ⟨s, rfl, rfl⟩
+
+/-- what the full statement would be: every registered suite decodes its own points and scalars -/
+def C03_iface_full : Prop :=
+  ∀ (s : SuiteId) (k : Kind) (bytes : List Nat), bytes ≠ [] → NoTagPrefix onetGens bytes →
+    ifaceSame onetGens (some s) k (s.make k) bytes = true
+
+/-- **it is false on the code** (known finding): the scalars of P256 and Residue512 are `mod.Int`s,
+whose tag `"mod.int "` does not name the modulus; `init()` registered the bn256 scalar under that
+tag, so such a scalar is instantiated as a bn256 scalar on every connection — it arrives as an
+error (value out of range / wrong size) or as a scalar of another group. -/
+theorem c03_iface_modint_clash (g : Grp) (hg : g = .p256S ∨ g = .resS) (suite : Option SuiteId)
+    (k : Kind) (bytes : List Nat) (hb : bytes ≠ []) :
+    ifaceSame onetGens suite k g bytes = false := by
+  have hget : onetGens.get [109, 111, 100, 46, 105, 110, 116, 32] = some .bnS := by decide
+  unfold ifaceSame
+  rcases hg with rfl | rfl
+  · rw [show Grp.p256S.marshalID = some [109, 111, 100, 46, 105, 110, 116, 32] from rfl,
+      iface_tagged onetGens _ _ bytes .bnS rfl hb hget]
+    simp
+  · rw [show Grp.resS.marshalID = some [109, 111, 100, 46, 105, 110, 116, 32] from rfl,
+      iface_tagged onetGens _ _ bytes .bnS rfl hb hget]
+    simp
+
+theorem c03_iface_full_fails : ¬ C03_iface_full := by
+  intro h
+  have h1 := h .p256 .scalar [1] (by simp) (by intro h8; simp at h8)
+  rw [show SuiteId.p256.make .scalar = .p256S from rfl,
+    c03_iface_modint_clash .p256S (.inl rfl) (some .p256) .scalar [1] (by simp)] at h1
+  cases h1
+
 /-! ### the code regions the model stands for
 Regenerated from /repo's source on every run (`harness/cmd/astfacts` → `OnetVerif/Shapes.lean`): the
 calls that matter for synchronisation and data flow, the lock regions and (for decision logic) the
